@@ -1,6 +1,7 @@
 package rules
 
 import (
+	"go/constant"
 	"bytes"
 	"fmt"
 	"go/token"
@@ -1432,7 +1433,7 @@ func (c *c08) versionLayout() {
 					c.notDecided(rule, construct, c.pos(fn.Pos()), fmt.Sprintf("%d success returns; the layout is read off exactly one", len(rets)))
 					return
 				}
-				ps := st.Stream(rets[0])
+				ps := c08MergeBytePieces(st.Stream(rets[0]), fn)
 				off := 0
 				i := 0
 				for _, p := range ps {
@@ -1534,6 +1535,8 @@ func c08FieldOfValue(p *codec.Piece, fn *ssa.Function) string {
 		}
 	case *ssa.Slice:
 		addr = x.X
+	case *ssa.FieldAddr:
+		addr = x
 	}
 	fa, ok := addr.(*ssa.FieldAddr)
 	if !ok {
@@ -1577,4 +1580,90 @@ func c08IsReceiver(v ssa.Value, fn *ssa.Function) bool {
 		}
 	}
 	return n == 1 && isRecv
+}
+
+// c08MergeBytePieces: single bytes written one by one are read as the field they
+// come from — byte(f), byte(f>>8) … in rising or falling lane order is the
+// integer f little- or big-endian; f[0], f[1], … f[n-1] of a byte-array field is
+// that field's n bytes.
+func c08MergeBytePieces(ps []*codec.Piece, fn *ssa.Function) []*codec.Piece {
+	fieldOf := func(v ssa.Value) string { return c08FieldOfValue(&codec.Piece{Kind: "byte", Val: v}, fn) }
+	elem := func(p *codec.Piece) (fa *ssa.FieldAddr, idx int64, ok bool) {
+		if p.Kind != "byte" || p.Val == nil {
+			return nil, 0, false
+		}
+		ld, isLd := c08Strip(p.Val).(*ssa.UnOp)
+		if !isLd || ld.Op != token.MUL {
+			return nil, 0, false
+		}
+		ia, isIA := ld.X.(*ssa.IndexAddr)
+		if !isIA {
+			return nil, 0, false
+		}
+		f, isFA := ia.X.(*ssa.FieldAddr)
+		k, isK := ia.Index.(*ssa.Const)
+		if !isFA || !isK || k.Value == nil || !c08IsReceiver(f.X, fn) {
+			return nil, 0, false
+		}
+		n, exact := constant.Int64Val(k.Value)
+		return f, n, exact
+	}
+	var out []*codec.Piece
+	for i := 0; i < len(ps); {
+		p := ps[i]
+		if p.Kind == "byte" && p.Val != nil {
+			if src, lane, n, ok := codec.ByteLane(p.Val); ok && n >= 2 && i+n <= len(ps) && fieldOf(src) != "" && (lane == 0 || lane == n-1) {
+				f := fieldOf(src)
+				asc := lane == 0
+				good := true
+				for j := 1; j < n; j++ {
+					q := ps[i+j]
+					if q.Kind != "byte" || q.Val == nil {
+						good = false
+						break
+					}
+					s2, l2, n2, ok2 := codec.ByteLane(q.Val)
+					want := j
+					if !asc {
+						want = n - 1 - j
+					}
+					if !ok2 || n2 != n || l2 != want || fieldOf(s2) != f {
+						good = false
+						break
+					}
+				}
+				if good {
+					order := "LE"
+					if !asc {
+						order = "BE"
+					}
+					out = append(out, &codec.Piece{Kind: "int", Width: n, Order: order, Val: src, At: p.At})
+					i += n
+					continue
+				}
+			}
+			if fa, idx, ok := elem(p); ok && idx == 0 {
+				if arr, isArr := c08Deref(fa.Type()).Underlying().(*types.Array); isArr && i+int(arr.Len()) <= len(ps) {
+					n := int(arr.Len())
+					good := true
+					for j := 1; j < n; j++ {
+						f2, k2, ok2 := elem(ps[i+j])
+						if !ok2 || k2 != int64(j) || f2.X != fa.X || f2.Field != fa.Field {
+							good = false
+							break
+						}
+					}
+					if good {
+						// stand-in: a load of the whole array field, which c08FieldOfValue resolves
+						out = append(out, &codec.Piece{Kind: "bytes", Width: n, Src: fa, At: p.At})
+						i += n
+						continue
+					}
+				}
+			}
+		}
+		out = append(out, p)
+		i++
+	}
+	return out
 }
